@@ -1,4 +1,4 @@
-import RpycModel.Srv.ServerLemmas
+import RpycModel.Srv.ServerContain
 /-
 C17 — closing a server ends all its clients; departed clients leave nothing behind.
 Only property theorems and their non-vacuity examples live here (namespace Rpyc.Props.C17); the automaton is
@@ -187,6 +187,31 @@ theorem gone_inside_authenticator_leaves_nothing (s : St) (k : Nat)
       (s'.cli k).child = false ∧ (s'.cli k).shut = true ∧ (s'.cli k).phase = .done ∧ (s'.cli k).inst = (s.cli k).inst := by
   refine ⟨_, by simp [step, ha, ho]; rfl, ?_, ?_, ?_, ?_, ?_, ?_⟩ <;>
     rcases hk with hk | hk <;> simp [send, hs, wake, ha, hk, afterEnd, release]
+
+/-! ### the pool's table is keyed by descriptor NUMBER: a departed client removes only its own entry -/
+
+/-- the obligation: the code's end-of-stream path (`_serve_requests` → `_drop_connection`) removes only the connection it was
+serving — measured on the live code on every run; false on a tree whose `_drop_connection(fd)` pops whatever is stored
+under that number by then -/
+theorem pool_drop_spares_newcomer : Gen.Srv.poolDropSparesNewcomer = true := by decide
+
+/-- a worker comes back from a departed client's blocking `on_disconnect` (the connection was closed, and its descriptor
+number free, all the while): that client is finished with and its entry gone, and no other client's record changes —
+whoever connected meanwhile and whichever number it was given -/
+theorem departed_removes_only_its_own_entry (s t : St) (o : Obs) (k : Nat) (hk : s.cfg.kind = .pool)
+    (hs : s.cfg.spare = true) (hst : step s (.releaseHook k) = .ok (t, o)) :
+    (∀ g, g ≠ k → (s.cli g).phase ≠ .backlog → g ∉ s.queue → Same (s.cli g) (t.cli g)) := by
+  intro g hg hb hq
+  exact others_untouched_pool hk hs (.releaseHook k) rfl g (by simp [Op.client, Ne.symm hg]) hb hq hst
+
+/-- with the pinned `_drop_connection(fd)`: client 1 leaves, client 3 is given its descriptor number while client 1's
+`on_disconnect` is still running; when it returns the server removes and closes client 3's connection -/
+theorem pool_fd_reuse_counterexample :
+    let ops : List Op := [.connect 1 .good, .call 1 .arm, .abruptClose 1, .connectReuse 3 1, .releaseHook 1]
+    ((run (init { kind := .pool, auth := false, nb := 2, spare := false }) ops).cli 3).inFd = false ∧
+    ((run (init { kind := .pool, auth := false, nb := 2, spare := false }) ops).cli 3).shut = true ∧
+    ((run (init { kind := .pool, auth := false, nb := 2, spare := true }) ops).cli 3).inFd = true ∧
+    ((run (init { kind := .pool, auth := false, nb := 2, spare := true }) ops).cli 3).shut = false := by decide
 
 /-! ### the forking server: the statement fails (finding `C17:forking:close-leaves-children-serving`) -/
 
